@@ -189,7 +189,9 @@ func (node *redisNode) shutdown() {
 func (node *redisNode) do(cmd string, args ...interface{}) (interface{}, error) {
 	conn, err := node.getConn()
 	if err != nil {
-		return fmt.Sprintf("ECONNTIMEOUT: %v", err), nil
+		// a plain string is not classified by CheckReply : returned as a reply it reads as the
+		// reply of a command that was executed
+		return nil, fmt.Errorf("ECONNTIMEOUT: %w", err)
 	}
 
 	if err = conn.send(cmd, args...); err != nil {
